@@ -76,6 +76,7 @@ def monitorsWant (c : Spec.Ctx) (obsDelta : Int) (j : Journal) (fatalHere : Bool
   if c.dry then [] else
   (if Spec.C07.orderHolds c j then [] else ["C07|order"]) ++
   (if Spec.C07.reuseHolds c j then [] else ["C07|reuse"]) ++
+  ((Spec.C10.untaintBad c j).map (fun t => "C10|" ++ t)) ++
   (if Spec.C07.amountHolds c want j then [] else ["C07|amount", "C05|compose"]) ++
   (if fatalHere then [] else (Spec.C07.shortfall c want j).flatMap (fun t => ["C07|remainder-not-requested: " ++ t, "C05|brought-too-few: " ++ t] ++
     (if unt < c.st.minEff then ["C03|below min_nodes and no cool-down running, but capacity is not restored: " ++ t] else []))) ++
